@@ -27,11 +27,16 @@ MANIFEST = dict(
          "programs of handlers, all registration orders, all environment sequences (clock advances in microseconds, at most one datagram per iteration) "
          "interleaved with client calls, by induction over runs: fifo_sends (initial queue ++ queue_send calls = datagrams popped ++ final queue; transmitted = "
          "popped when nothing fails), paced (consecutive transmissions >= 20001 us >= 1/50 s apart), first_match (the minimal accepting index, nobody if none), "
-         "exception_isolated (a raising handle/on_handled leaves queue, handler list, every timer untouched and never stops the engine), retry_exact (an "
-         "unanswered transmitted request with timeout T and N retries: never more than N re-queues, all to the original destination; while registered "
+         "exception_isolated (a raising handle/on_handled leaves queue, handler list, every timer untouched and never stops the engine; engine_survives: "
+         "no iteration stops it unless an on_retry_failed callback or _loop_func raises - neither call is guarded in _thread_func, finding "
+         "engine-stopped:on_retry_failed-raises), retry_exact (an "
+         "unanswered request that HAS BEEN transmitted once - a request that times out before its first transmission loses a retransmission, finding "
+         "retry-lost:timeout-before-first-transmission - with timeout T and N retries: never more than N re-queues, all to the original destination; while registered "
          "re-queues + remaining retries = N and clock <= s0 + (N+1)(T+D); once gone exactly N re-queues and clock > s0 + (N+1)T; removed in the very iteration "
          "that detects the (N+1)-th timeout; D = bound on the clock advance of one iteration), answered_removed (reply handled -> gone at this iteration's "
-         "clean-up, no re-queue then or later), handshake_completes (version -> channel -> config -> block at event level, any events before each reply with "
+         "clean-up, no re-queue then or later; answered_no_further_transmission: nothing of it is ever transmitted again PROVIDED no transmission of it was "
+         "pending in the queue when the reply was handled - the code does not purge the queue, finding answered:retransmission-after-answer), "
+         "handshake_completes (version -> channel -> config -> block at event level, any events before each reply with "
          "<= budget timeouts, block stage = C01's threaded assembler surviving its prefix then one clean chain: connected and block = the spa's bytes). "
          "Tie: translator facts + differential correspondence of the model driver with the real engine stepped through its own `_thread_func` on "
          "boundary-aimed scripts, and of the handshake model with a real GeckoSpa against the real GeckoSimulator (both engines stepped, shipped snapshot) "
@@ -403,6 +408,12 @@ class Rig:
         self.sent_log.append((self.clk.us, hid, dest))
         if h is not None:
             h.stats["first_sent"] = True
+            origin = self.enq_origin[len(self.pop_log) - 1] if len(self.pop_log) <= len(self.enq_origin) else None
+            if origin == "retry" and h.stats["answered"] and not h.stats["foreign"] and h.stats["regs"] == 1 and h._should_remove_handler \
+                    and h not in self.sock._receive_handlers:
+                self.violation("answered:retransmission-after-answer", "a request is removed without further transmission once answered",
+                               f"handler {h.hid} was answered and removed, but the retransmission retry() had queued before the reply arrived "
+                               f"(held back by the throttle / a backlog) was still transmitted at {self.clk.us} us")
             if h.hid != hid or (d is not None and tuple(d[:2]) != tuple(dest)):
                 self.violation("fifo:transmitted-differs-from-popped", "sendto gets the popped handler's bytes and destination", f"popped {h.hid}->{d}, sent {hid}->{dest}")
         if len(self.sent_log) >= 2:
@@ -421,6 +432,9 @@ class Rig:
         self.enq_origin.append(origin)
         if origin == "retry" and hasattr(h, "stats"):
             h.stats["retry_enq"] += 1
+            if h.stats["retry_enq"] > h.row["retries"]:
+                self.violation("retry:more-than-N-retransmissions", "a handler constructed with retry_count N is re-queued by retry() at most N times",
+                               f"handler {h.hid}: N={h.row['retries']}, re-queue #{h.stats['retry_enq']}")
             if h not in self.sock._receive_handlers:
                 self.violation("answered:retransmission-of-unregistered-handler", "no retransmission once a handler is removed", f"handler {h.hid}")
 
@@ -720,6 +734,9 @@ CORPUS = [
      "iter 1000 14001 -", "iter 5001 1000 -", "iter 20001 1000 -", "iter 20001 1000 -", "iter 20001 1000 -", "iter 20001 1000 -"],
     # F2: on_retry_failed raises
     ["new 0", "spec 1 1 0 50000 0 x 1", "spec 2 2 0 0 0 n 1", "reg 1", "reg 2", "qs 2 1", "iter 0 50001 -", "iter 20001 0 1", "iter 20001 0 1"],
+    # F3: a retransmission still queued (throttled) when the reply is handled is transmitted after the handler is gone
+    ["new 0", "spec 1 6 0 100000 2 r 1", "spec 2 0 0 0 0 n 1", "react 1 h 2 R 0", "reg 1", "qs 1 3", "iter 20001 0 -", "qs 2 4",
+     "iter 100000 1 -", "iter 1000 0 2", "iter 20001 0 -", "iter 20001 0 -"],
     # boundary: exactly one period -> throttled; one microsecond more -> sent;  age == timeout -> not fired; +1 -> fired, N = 1, then removed
     ["new 1000", "spec 1 1 0 100000 1 r 1", "reg 1", "qs 1 2", "iter 20000 0 -", "iter 1 0 -", "iter 0 99999 -", "iter 0 1 -",
      "iter 20001 79999 -", "iter 0 1 -", "iter 0 100001 -"],
@@ -1017,34 +1034,43 @@ def real_thread_test(ctx):
 
         def handle(self, b, s):
             pass
+    def wait(s, cond, limit):
+        t_end = realtime.monotonic() + limit
+        while realtime.monotonic() < t_end and not cond():
+            realtime.sleep(0.005)
+
     for n_retry in (1, 3):
-        ts = TSock()
-        s = C["Sock"](ts)
-        s.open()
-        try:
-            hs = [H(send_bytes=b"M%d" % i) for i in range(8)]
-            for i, h in enumerate(hs):
-                s.queue_send(h, ("10.0.0.1", 1000 + i))
-            rh = H(send_bytes=b"RETRY", timeout=0.06, retry_count=n_retry, on_retry_failed=C["Base"]._default_retry_failed_handler)
-            s.add_receive_handler(rh)
-            s.queue_send(rh, ("10.0.0.2", 1))
-            t_end = realtime.monotonic() + 0.06 * (n_retry + 1) + 8 * 0.02 + 1.0
-            while realtime.monotonic() < t_end and (s._receive_handlers or s._send_handlers):
-                realtime.sleep(0.01)
-            realtime.sleep(0.1)
-        finally:
-            s.close()
-        sent = list(ts.sent)
-        order = [d for _, d, _ in sent if d.startswith(b"M")]
-        if order != [b"M%d" % i for i in range(8)]:
-            res["problems"].append(f"order {order}")
-        gaps = [b[0] - a[0] for a, b in zip(sent, sent[1:])]
-        if any(g < 0.02 - 1e-4 for g in gaps):
-            res["problems"].append(f"gap {min(gaps):.5f}")
-        nre = len([1 for _, d, _ in sent if d == b"RETRY"])
-        if nre != 1 + n_retry or s._receive_handlers:
-            res["problems"].append(f"retry handler: {nre} transmissions for N={n_retry}, still registered={bool(s._receive_handlers)}")
-        res["runs"] += 1
+        for backlog in (False, True):
+            ts = TSock()
+            s = C["Sock"](ts)
+            s.open()
+            try:
+                hs = [H(send_bytes=b"M%d" % i) for i in range(8)]
+                for i, h in enumerate(hs):
+                    s.queue_send(h, ("10.0.0.1", 1000 + i))
+                if not backlog:
+                    wait(s, lambda: not s._send_handlers, 2.0)          # the request goes out at once: first transmission before its first timeout
+                rh = H(send_bytes=b"RETRY", timeout=0.06, retry_count=n_retry, on_retry_failed=C["Base"]._default_retry_failed_handler)
+                s.add_receive_handler(rh)
+                s.queue_send(rh, ("10.0.0.2", 1))
+                wait(s, lambda: not s._receive_handlers and not s._send_handlers, 0.06 * (n_retry + 1) + 8 * 0.02 + 2.0)
+                realtime.sleep(0.1)
+            finally:
+                s.close()
+            sent = list(ts.sent)
+            order = [d for _, d, _ in sent if d.startswith(b"M")]
+            if order != [b"M%d" % i for i in range(8)]:
+                res["problems"].append(f"order {order}")
+            gaps = [b[0] - a[0] for a, b in zip(sent, sent[1:])]
+            if any(g < 0.02 - 1e-4 for g in gaps):
+                res["problems"].append(f"gap {min(gaps):.5f}")
+            nre = len([1 for _, d, _ in sent if d == b"RETRY"])
+            if backlog:
+                # the request waits 160 ms behind 8 datagrams with a 60 ms timeout: the defect `retry-lost:timeout-before-first-transmission` on real threads
+                res.setdefault("finding_retry_lost_on_real_thread", []).append(f"N={n_retry}: {nre} of {1 + n_retry} datagrams transmitted")
+            elif nre != 1 + n_retry or s._receive_handlers:
+                res["problems"].append(f"retry handler: {nre} transmissions for N={n_retry}, still registered={bool(s._receive_handlers)}")
+            res["runs"] += 1
     return res
 
 
